@@ -96,6 +96,8 @@ Section Walker.
   Variable cdres : str -> str -> str.
   (* has_handler(base) and base not in SIMPLE_SAFE and handler.classify(words).action != "allow" *)
   Variable injrisk : ctx -> list str -> bool.
+  (* match_command(SimpleCommand(tokens), config, cwd, remote) is not None *)
+  Variable rulematch : ctx -> list str -> bool.
 
   (* _analyze_string_cmdsubs(s) *)
   Definition rawscan (c : ctx) (s : str) : list verdict :=
@@ -206,7 +208,7 @@ Section Walker.
       combine (subst ++ inj ++ redirs kr c ++
                match words with
                | [] => [Allow]
-               | _ => if mem_str base TEST_COMMANDS then [Allow] else [simple c words]
+               | _ => if mem_str base TEST_COMMANDS && negb (rulematch c tokens) then [Allow] else [simple c words]
                end) in
     (* --- _analyze_node --- *)
     let node : ctx -> verdict := fun c =>
